@@ -73,6 +73,27 @@ Theorem C06_digest_commits : forall (dsha256 : bytes -> bytes), (forall x, lengt
 Proof. exact digest_commits. Qed.
 Print Assumptions C06_digest_commits.
 
+(* (1'') verdict level, PARTIAL: with the signature check an arbitrary function `verify key digest signature`, a
+   signature that verified before a change of a committed field verifies afterwards only if the hash function shows
+   an anomaly (as above) or the same signature verifies under two DIFFERENT digests.  That the latter happens for at
+   most a negligible set of digests is a fact about ECDSA (C01's verify_iff) and is not imported here. *)
+Theorem C06_tamper_fails_partial : forall (dsha256 : bytes -> bytes), (forall x, length (dsha256 x) = 32%nat) ->
+  forall (pubkey signature : Type) (verify : pubkey -> bytes -> signature -> bool)
+         (sv : sigversion) (ht : N) (idx : nat) (c c' : sctx) (f f' : fed) (k : pubkey) (s : signature) (fl : field),
+  Forall (fun x => length (ti_hash x) = 32%nat) (tx_ins (sc_tx c)) ->
+  Forall (fun x => length (ti_hash x) = 32%nat) (tx_ins (sc_tx c')) ->
+  (idx < length (tx_ins (sc_tx c)))%nat -> (idx < length (tx_ins (sc_tx c')))%nat ->
+  fed_of sv ht idx c = Ret f -> fed_of sv ht idx c' = Ret f' ->
+  committed sv ht idx (has_output idx c) fl = true -> get idx fl c <> get idx fl c' ->
+  verify k (digest_of dsha256 f) s = true -> verify k (digest_of dsha256 f') s = true ->
+  ((exists x y, In x (feeds dsha256 f) /\ In y (feeds dsha256 f') /\ x <> y /\ dsha256 x = dsha256 y)
+   \/ (exists x, In x (feeds dsha256 f ++ feeds dsha256 f')
+                 /\ (dsha256 x = gen06_zero32 \/ dsha256 x = be_encode 32 single_value)))
+  \/ (digest_of dsha256 f <> digest_of dsha256 f'
+      /\ verify k (digest_of dsha256 f) s = true /\ verify k (digest_of dsha256 f') s = true).
+Proof. exact tamper_fails. Qed.
+Print Assumptions C06_tamper_fails_partial.
+
 (* (2) changes confined to uncommitted fields leave the hash input unchanged — exact equality of outcomes,
    exceptions included, for every hash type value: other inputs' sequences under NONE/SINGLE, other outputs under
    SINGLE, all outputs under NONE, all other inputs under ANYONECANPAY, scriptSigs and witnesses of every input,
